@@ -1,0 +1,38 @@
+//! Verification hooks (only compiled with `--cfg helgoboss_midi_verif`).
+//!
+//! Provides a drop-in replacement for `std::time::Instant` which reads a thread-local,
+//! test-driven nanosecond counter so that histories fed to the polling scanner can contain
+//! explicit time steps.
+#![cfg(helgoboss_midi_verif)]
+
+use core::time::Duration;
+use std::cell::Cell;
+
+thread_local! {
+    static NOW_NANOS: Cell<u64> = Cell::new(0);
+}
+
+/// Sets the current time of the mock clock (nanoseconds since an arbitrary origin).
+pub fn set_now(nanos: u64) {
+    NOW_NANOS.with(|n| n.set(nanos));
+}
+
+/// Returns the current time of the mock clock in nanoseconds.
+pub fn now_nanos() -> u64 {
+    NOW_NANOS.with(|n| n.get())
+}
+
+/// Drop-in replacement for `std::time::Instant` backed by the mock clock.
+#[derive(Copy, Clone, Eq, PartialEq, Ord, PartialOrd, Hash, Debug)]
+pub struct Instant(u64);
+
+impl Instant {
+    pub fn now() -> Instant {
+        Instant(now_nanos())
+    }
+
+    /// Like `std::time::Instant::elapsed`, saturating at zero.
+    pub fn elapsed(&self) -> Duration {
+        Duration::from_nanos(now_nanos().saturating_sub(self.0))
+    }
+}
